@@ -41,6 +41,9 @@ class UpdateExtractor(BaseExtractor):
                 continue
 
             if tgt_flag:
+                if segment.type == "keyword" and segment.raw_upper == "ONLY":
+                    # postgres: UPDATE ONLY tab SET ..., the table comes next
+                    continue
                 if write_table := self.find_table(segment):
                     holder.add_write(write_table)
                 tgt_flag = False
@@ -66,12 +69,13 @@ class UpdateExtractor(BaseExtractor):
                 ):
                     holder.add_read(read_table)
 
-        for tgt_col in columns:
-            tgt_col.parent = list(holder.write)[0]
-            for src_col in tgt_col.to_source_columns(
-                holder.get_alias_mapping_from_table_group(list(holder.read))
-            ):
-                holder.add_column_lineage(src_col, tgt_col)
+        if holder.write:
+            for tgt_col in columns:
+                tgt_col.parent = list(holder.write)[0]
+                for src_col in tgt_col.to_source_columns(
+                    holder.get_alias_mapping_from_table_group(list(holder.read))
+                ):
+                    holder.add_column_lineage(src_col, tgt_col)
 
         self.extract_subquery(subqueries, holder)
 
